@@ -184,7 +184,7 @@ def run_find(n, arrival, kind, timeout=3.0, subop=None, bad_last=False):
         srv.shutdown()
 
 
-def coalesced_scenario(tls, lead):
+def coalesced_scenario(tls, lead, release_in_same_write=True):
     """A raw peer (plain TCP or TLS) associates with a pynetdicom acceptor and then writes, in ONE write (one TLS
     record), `lead` C-ECHO requests followed directly by its A-RELEASE-RQ.  The release request is the peer's last
     PDU: if the acceptor leaves it unread in a buffer nothing will ever wake it."""
@@ -239,16 +239,23 @@ def coalesced_scenario(tls, lead):
         ac = read_pdu(5.0)
         if ac is None or ac[0] != 2:
             return {"harness_error": f"no A-ASSOCIATE-AC ({ac[:1] if ac else None})"}
-        s.sendall(b"".join(rawpeer.c_echo_rq(1, i + 1) for i in range(lead)) + rawpeer.RELEASE_RQ)
+        s.sendall(b"".join(rawpeer.c_echo_rq(1, i + 1) for i in range(lead)) + (rawpeer.RELEASE_RQ if release_in_same_write else b""))
         pdus = []
         t0 = time.monotonic()
         while time.monotonic() - t0 < 2.5:
+            if not release_in_same_write and pdus.count(4) == lead:
+                break  # every request written in the one record has been answered
             p_ = read_pdu(2.5 - (time.monotonic() - t0))
             if p_ is None:
                 break
             pdus.append(p_[0])
             if p_[0] in (6, 7):
                 break
+        if not release_in_same_write:
+            s.sendall(rawpeer.RELEASE_RQ)
+            p_ = read_pdu(2.5)
+            if p_ is not None:
+                pdus.append(p_[0])
         time.sleep(0.1)
         return {"established": True, "pdus": pdus, "rp": 6 in pdus, "echo_answers": pdus.count(4),
                 "acc_released": bool(released), "acc_aborted": bool(aborted), "n_released": len(released)}
